@@ -47,8 +47,30 @@ JudgeHist(e) ==
 \* Inverse also means that the result is as independent as the original: two positions of the recomposed value share a
 \* pointer target, a map or a slice backing array (e.alias, pointer identity observed by the harness) only if the
 \* original did (deep equality alone cannot see that writing one element changes another)
+\* features of the original that have a known as-implemented reading (classification of a failed round trip)
+RECURSIVE Feat(_)
+Feat(tv) == IF tv.g \in {"ptr", "iface"} THEN UNION {Feat(tv.a[i]) : i \in 1..Len(tv.a)}
+            ELSE IF tv.g \in {"slice", "array", "map"} THEN
+                 (IF tv.g = "slice" /\ tv.byt THEN {"bytes"} ELSE {})
+                 \cup (IF \E i \in 1..Len(tv.a) : tv.a[i].g = "ptr" /\ tv.a[i].nil THEN {"nil-pointer-element"} ELSE {})
+                 \cup UNION {Feat(tv.a[i]) : i \in 1..Len(tv.a)}
+            ELSE IF tv.g = "struct" THEN
+                 (IF \E i, j \in 1..Len(tv.f) : i # j /\ tv.f[i].tp /\ tv.f[i].tn \in {tv.f[j].n, tv.f[j].l1, tv.f[j].la} THEN {"tag-names-other-member"} ELSE {})
+                 \cup UNION {IF ~tv.f[i].exp THEN {}
+                             ELSE (IF tv.f[i].emb /\ tv.f[i].v.g = "ptr" THEN {"embedded-pointer"} ELSE {}) \cup Feat(tv.f[i].v) : i \in 1..Len(tv.f)}
+            ELSE IF tv.g \in {"bool", "int", "uint8", "float", "string"} THEN (IF tv.name # "" THEN {"named-scalar"} ELSE {})
+            ELSE {}
+\* the as-implemented readings: a []byte is written as a string, which Recompose refuses; indexType panics on an embedded
+\* struct pointer; the encoders panic on a named scalar field of a non-addressable struct; (results that differ:) a nil
+\* pointer element comes back as a pointer to a zero value; a member absent from tag-keyed data is filled through the
+\* name fallback from the key of another member
+Class(e) == LET F == Feat(e.orig) IN
+            IF ~e.ok THEN (IF "embedded-pointer" \in F THEN "embedded-pointer" ELSE IF "bytes" \in F THEN "bytes-as-string"
+                           ELSE IF "named-scalar" \in F THEN "named-scalar" ELSE IF "nil-pointer-element" \in F THEN "nil-pointer-element" ELSE "-")
+            ELSE IF "nil-pointer-element" \in F THEN "nil-pointer-element"
+            ELSE IF "tag-names-other-member" \in F THEN "tag-names-other-member" ELSE "-"
 JudgeRt(e) == (IF e.ok /\ Same(e.res, e.orig) THEN <<>>
-               ELSE <<[i |-> c, kind |-> "not-inverse", api |-> e.api, t |-> "shape", pos |-> 0, pred |-> <<>>, m |-> e.m]>>)
+               ELSE <<[i |-> c, kind |-> "not-inverse", api |-> e.api, t |-> Class(e), pos |-> 0, pred |-> <<>>, m |-> e.m]>>)
               \o (IF e.ok /\ e.alias /\ ~e.oalias
                   THEN <<[i |-> c, kind |-> "aliased", api |-> e.api, t |-> "shape", pos |-> 0, pred |-> <<>>, m |-> ""]>> ELSE <<>>)
 
